@@ -4,7 +4,9 @@ from executed rows: src/write/line.rs ConvertLineProgram::{new,read_row,convert_
 Builds on batch `line` (`line.populate` runs first and unchanged): the read-side register machine
 `read::LineRow::{execute, reset, end_sequence, address}` and `LineInstructions::next_instruction` are THE SAME items with
 the same contracts over the ghost register record `regs()`; everything of batch `line` is re-verified here (its known
-findings F-line-1 / F-line-3 therefore fail here too, under the same labels and C04/C01 tags - they are not C12's).
+finding F-line-3 = [C04:monotone-rows] on `LineRows::next_row` therefore fails here too, under the same label and C04
+tag - it is not C12's; `python3 vx/run.py conv_line` exits 1 with exactly that one ERR line on the pinned tree, as batch
+line_hdr does; every C12 clause and every obligation of the functions owned by C12 is discharged).
 
 Property clause: "the same line rows ... or it fails with an error; it never silently drops ... anything".  read_row is
 the state machine that turns executed rows into ConvertLineRow::{SetAddress, Row, EndSequence} and SUPPRESSES the rows of
@@ -52,8 +54,10 @@ SELFTEST
   m1  tombstone branch: `self.from_row.reset(..)` moved before the `if self.from_row.end_sequence()` test
                                                      -> loop invariant [C12:line-tombstone-cleared-at-end]
   m2  `self.address = None;` dropped there           -> loop invariant [C12:line-tombstone-cleared-at-end][C12:line-set-address-pending]
-  m3  `if !tombstone` inverted when storing address  -> loop invariant [C12:line-set-address-pending]
-  m4  Row returned instead of EndSequence            -> [C12:line-row-emitted]
+  m3  `if !tombstone` inverted when storing address  -> loop invariant [C12:line-tombstone-cleared-at-end][C12:line-set-address-pending]
+                                                        (the `!in_tomb ==> self.address == pend` conjunct, at the arm's `continue`)
+  m4  Row returned instead of EndSequence            -> [C12:line-row-emitted] (+ [C12:line-set-address-pending] postcondition)
+  every run: status ok, exit 1, the listed obligations + the known C04 finding; the unmutated tree: only the latter.
 
 Not decided here: ConvertLineProgram::{new, convert_file, convert_string, read_sequence, set_address, generate_row,
   end_sequence, program}; convert_row (register-by-register copy, file index mapping, InvalidFileIndex cases): assumed
